@@ -37,6 +37,7 @@ type c06Run struct {
 	timeouts   int
 	closedAt   int // index of the operation during which the client closed the connection, -1
 	idleClose  bool
+	creditOwed int64 // connection-level credit not returned at the end (0 when the connection was closed)
 	human      string
 }
 
@@ -147,6 +148,9 @@ func c06Exec(t testing.TB, cfg c06Cfg, script []c06Op, gen func(e *c06Env, n int
 	}
 	run.history = append([]string{}, e.hist...)
 	run.timeouts = e.timeouts
+	if !e.closed {
+		run.creditOwed = e.creditOwed()
+	}
 	return run, nil
 }
 
@@ -220,7 +224,13 @@ func c06Judge(s *verifh.Session, runs []*c06Run) {
 		impl := strings.Join(r.transcript, ";")
 		monitor := ans[2*i+1]
 		unexpectedClose := r.closedAt >= 0 && !r.rogue && !r.idleClose
-		propOK := monitor == "ok" && !unexpectedClose && r.timeouts == 0
+		// credit: at quiescence the client owes the peer less than inflowMinRefresh beyond what is
+		// still unread (an independent reading of "credit is returned for every consumed byte")
+		creditOK := r.creditOwed >= 0 && r.creditOwed < 4096
+		if !creditOK {
+			s.Count("credit-owed")
+		}
+		propOK := monitor == "ok" && !unexpectedClose && r.timeouts == 0 && creditOK
 		class := ""
 		if fix, ok := legacy[i]; ok {
 			for k := 0; k < 4; k++ {
@@ -234,7 +244,7 @@ func c06Judge(s *verifh.Session, runs []*c06Run) {
 		if monitor != "ok" {
 			s.Count("monitor:" + monitor)
 		}
-		human := fmt.Sprintf("cfg=%s script=%s -> %s [monitor=%s close=%v timeouts=%d]%s", r.cfg.name, strings.Join(r.tokens, ";"), impl, monitor, r.closedAt, r.timeouts, r.human)
+		human := fmt.Sprintf("cfg=%s script=%s -> %s [monitor=%s close=%v timeouts=%d owed=%d]%s", r.cfg.name, strings.Join(r.tokens, ";"), impl, monitor, r.closedAt, r.timeouts, r.creditOwed, r.human)
 		if len(human) > 1500 {
 			human = human[:1500] + "…"
 		}
